@@ -259,7 +259,7 @@ def neighbour_chains(jobs: list, nbases: int, k: int, seed_: int, prefer: tuple 
     ONE figure it states itself restated 10 % lower or higher (a later line governs).  `prefer`: names varied first when stated."""
     import random
     rng = random.Random(seed_)
-    pool = [j for j in jobs if '\n' in j[1]]
+    pool = [j for j in jobs if '\n' in j[1] and not j[0].startswith('example')]      # (generated configurations: an example can take a minute, a chain runs it four times)
     chains = []
     for tag, text in rng.sample(pool, min(nbases, len(pool))):
         stated = []
